@@ -10,7 +10,8 @@
      Y <id> <kflags> <inputhex> <calls> <outhex> <frames>   streaming compressor against the tape of the real output
          kflags: "-" or comma list of si | so | ml ; calls = offered:cap:dir:wlog:maxblock:pledge(- = none);...
          frames = hs/ck/cs:rs,cs:rs,...;hs/ck/...
-         -> <id> OK consumed:produced:ret:stage:inBuffPos:inToCompress:inBuffTarget:outContent:outFlushed:frameEnded:held:blockSize:inBuffSize:outBuffSize:hint;... bad=<0|1> chunks=<in:last:out,...> *)
+         -> <id> OK consumed:produced:ret:stage:inBuffPos:inToCompress:inBuffTarget:outContent:outFlushed:frameEnded:held:blockSize:inBuffSize:outBuffSize:hint;... bad=<0|1> chunks=<in:last:out,...>
+     W <id> <window> <segs>                    ZSTD_window_update folded over segments (see cmd_w) *)
 open C02model
 
 let rec pos_of_int i = if i = 1 then XH else if i land 1 = 0 then XO (pos_of_int (i lsr 1)) else XI (pos_of_int (i lsr 1))
@@ -183,6 +184,33 @@ let cmd_y id kfl ihex calls ohex frames =
   Printf.printf "%s OK %s bad=%d chunks=%s\n" id (if Buffer.length rec_ = 0 then "-" else Buffer.contents rec_) (b2i t.t_bad)
     (String.concat "," (List.rev_map (fun ((n, l), o) -> Printf.sprintf "%s:%d:%s" (string_of_n n) (b2i l) (string_of_n o)) t.t_chunks))
 
+(* decimal string (optional leading '-') -> Z *)
+let z_of_string s =
+  if s = "" then Z0
+  else if s.[0] = '-' then (match n_of_string (String.sub s 1 (String.length s - 1)) with N0 -> Z0 | Npos p -> Zneg p)
+  else (match n_of_string s with N0 -> Z0 | Npos p -> Zpos p)
+
+(* W <id> <initial window base:dictBase:dictLimit:lowLimit:nextSrc> <segs off:len,...> <blockSizeMax>:<maxDist>
+   ZSTD_window_update + the maximum-distance rule of the block loop (w_chunk) folded over the segments
+   -> <id> OK base:dictBase:dictLimit:lowLimit:nextSrc;... (after every segment) *)
+let cmd_w id init segs bsmd =
+  let w0 = (match String.split_on_char ':' init with
+            | [b; db; dl; ll; ns] -> { w_base = z_of_string b; w_dictBase = z_of_string db; w_dictLimit = n_of_string dl;
+                                       w_lowLimit = n_of_string ll; w_nextSrc = z_of_string ns }
+            | _ -> failwith "bad window") in
+  let b = Buffer.create 1024 in
+  let w = ref w0 in
+  List.iter (fun sg ->
+    match String.split_on_char ':' sg with
+    | [off; len] ->
+      let (bs, md) = (match String.split_on_char ':' bsmd with [a; b] -> (n_of_string a, n_of_string b) | _ -> failwith "bad bs:md") in
+      let w' = w_chunk !w (z_of_string off) (n_of_string len) false bs md in
+      w := w';
+      Buffer.add_string b (Printf.sprintf "%s:%s:%s:%s:%s;" (string_of_z w'.w_base) (string_of_z w'.w_dictBase) (string_of_n w'.w_dictLimit)
+                             (string_of_n w'.w_lowLimit) (string_of_z w'.w_nextSrc))
+    | _ -> ()) (split ',' segs);
+  Printf.printf "%s OK %s\n" id (if Buffer.length b = 0 then "-" else Buffer.contents b)
+
 let () =
   try
     while true do
@@ -196,6 +224,7 @@ let () =
           | "O" -> let (p, _) = parse_dflags t.(2) in print_res t.(1) (roneshot p (slice (arr_of_hex t.(3)) 0 max_int) (n_of_string t.(4)))
           | "B" -> cmd_b t.(1) t.(2) t.(3)
           | "Y" -> cmd_y t.(1) t.(2) t.(3) t.(4) t.(5) (if Array.length t > 6 then t.(6) else "-")
+          | "W" -> cmd_w t.(1) t.(2) t.(3) t.(4)
           | _ -> Printf.printf "? BADCMD\n"
         end
       with e -> Printf.printf "%s CRASH %s\n" (if Array.length t > 1 then t.(1) else "?") (Printexc.to_string e));
